@@ -48,17 +48,20 @@ RunSuffixes(run) == {SubSeq(run, k, Len(run)) : k \in 1..Len(run)}
 
 \* classification of the run before the short slot at index i:
 \*   [c |-> "none" | "valid" | "grey" | "broken", name |-> units]
+ChkAll(run, c) == \A k \in 1..Len(run) : run[k].k = c
 Class(slots, i) ==
    LET run == RunBefore(slots, i)
-       raw == slots[i].n
+       c == LfnChecksum(slots[i].n)
+       Finish(r) ==
+          LET us == Units(r)
+              nm == CutAtNul(us)
+          IN IF r = run /\ Clean(r) /\ PadRegular(us) /\ Len(nm) >= 1 /\ Len(nm) <= 255
+             THEN [c |-> "valid", name |-> nm] ELSE [c |-> "grey", name |-> nm]
    IN IF run = <<>> THEN [c |-> "none", name |-> <<>>]
-      ELSE LET good == {r \in RunSuffixes(run) : OrdersOk(r) /\ ChkOk(r, raw)} IN
+      ELSE IF OrdersOk(run) /\ ChkAll(run, c) THEN Finish(run)            \* the common case, no search
+      ELSE LET good == {r \in RunSuffixes(run) : OrdersOk(r) /\ ChkAll(r, c)} IN
            IF good = {} THEN [c |-> "broken", name |-> <<>>]
-           ELSE LET r == CHOOSE x \in good : \A y \in good : Len(y) <= Len(x)      \* longest complete suffix
-                    us == Units(r)
-                    nm == CutAtNul(us)
-                IN IF r = run /\ Clean(r) /\ PadRegular(us) /\ Len(nm) >= 1 /\ Len(nm) <= 255
-                   THEN [c |-> "valid", name |-> nm] ELSE [c |-> "grey", name |-> nm]
+           ELSE Finish(CHOOSE x \in good : \A y \in good : Len(y) <= Len(x))   \* longest complete suffix
 
 \* verdict on what a reader returned as long name (lib = <<>> means "no long name")
 LongNameOk(slots, i, lib) ==
